@@ -68,6 +68,23 @@ func c05Monitor(args []string) int {
 		p, _ := position.NewPositionFen(fen)
 		positions = append(positions, GamePos{Root: fen, P: p})
 	}
+	// roots with several captures that are answered by a recapture (a continuation exists below the first root moves)
+	for _, fen := range []string{"r1bqkb1r/ppp2ppp/2n1pn2/3p4/3PP3/2N2N2/PPP2PPP/R1BQKB1R w KQkq - 0 5",
+		"r3k2r/p1ppqpb1/bn2pnp1/3PN3/1p2P3/2N2Q1p/PPPBBPPP/R3K2R w KQkq - 0 1", "r1bq1rk1/pp2ppbp/2np1np1/8/3NP3/2N1BP2/PPPQ2PP/R3KB1R b KQ - 2 8"} {
+		p, _ := position.NewPositionFen(fen)
+		positions = append([]GamePos{{Root: fen, P: p}}, positions...)
+	}
+	// sweep of tiny node limits: the stop fires inside the first iteration, between root moves,
+	// inside the first quiescence search, ... (cheap: a few dozen nodes each)
+	forceNodes := map[int]uint64{}
+	base := len(positions)
+	for k := 0; k < base; k += 2 {
+		for j := 1; j <= 48; j++ { // every limit: the window in which a stop lands between two root moves is one node wide
+			cp := *positions[k].P
+			forceNodes[len(positions)] = uint64(j)
+			positions = append(positions, GamePos{Root: positions[k].Root, Moves: positions[k].Moves, P: &cp})
+		}
+	}
 	var s *search.Search
 	var d *captureDriver
 	for i, g := range positions {
@@ -124,6 +141,20 @@ func c05Monitor(args []string) int {
 			ponderhit = rng.Bool()
 			stopAfter = time.Duration(rng.Intn(30000)) * time.Microsecond
 			mode = fmt.Sprintf("ponder ponderhit=%v after %s", ponderhit, stopAfter)
+		}
+		if fn, ok := forceNodes[i]; ok {
+			if fn%5 != 0 { // mostly a cold hash table: continuations come from the search, not from hash cuts
+				s.NewGame()
+			}
+			if fn%8 != 0 { // mostly the default configuration
+				restoreDefaults()
+				config.Settings.Search.TTSize = 2
+				cfgs = "default"
+			}
+			*sl = *search.NewSearchLimits()
+			sl.Nodes = fn
+			stopAfter, ponderhit = -1, false
+			mode = fmt.Sprintf("nodes %d", fn)
 		}
 		in := map[string]interface{}{"root": g.Root, "moves": movesUci(g.Moves), "fen": p.StringFen(), "limits": mode, "config": cfgs, "search_index": i}
 		fenBefore, keyBefore := p.StringFen(), p.ZobristKey()
